@@ -238,6 +238,8 @@ class CompGen:
                     self.arr_family = self.pick(["strings", "objects"])
                 if self.arr_family == "strings":
                     s = self.pick([{"type": "array", "items": {"type": "string"}}, {"type": "array"},
+                                   {"type": "array", "items": {"type": "string"}, "minItems": 2, "maxItems": 2},
+                                   {"type": "array", "maxItems": 3},
                                    {"type": "array", "items": {"type": "string", "enum": rnd.sample(STR_VALUES, 3)}},
                                    {"type": "array", "items": {"enum": rnd.sample(STR_VALUES, 3)}},
                                    {"type": "array", "items": {"type": ["string", "null"]}}])
@@ -254,7 +256,7 @@ class CompGen:
                                {"type": "array", "items": [{"type": "string"}, {"type": "integer"}], "minItems": 2, "maxItems": 2}])
                 out.append(s)
         if fam in ("array",) and rnd.random() < 0.4:
-            # a `$ref` member to an array definition (no length keywords: finding C09-F2's class excluded)
+            # a `$ref` member to an array definition (length keywords included since C09-F2 was fixed by 884aa7b)
             defs["D0"] = out[0]
             out[0] = {"$ref": "#/definitions/D0"}
             self.tags.add("ref-member")
